@@ -825,6 +825,93 @@ def setter_guards(doc, log):
             break
 
 
+# ----------------------------------------------------------------------------------------------
+# 7. `unsafe { .. }` statement blocks are sunk to the innermost block that holds all their unchecked operations
+
+
+def _has_unsafe_op(n):
+    for x in walk(n):
+        if x.get("k") == "mcall" and str(x.get("name", "")).startswith(("get_unchecked", "as_ptr", "as_mut_ptr", "add", "offset")):
+            return True
+        if x.get("k") == "call" and isinstance(x.get("f"), dict) and x["f"].get("k") == "path":
+            last = x["f"]["p"].split("::")[-1]
+            if last.startswith(("_mm", "vld", "vst", "vfma", "vadd", "vpadd", "vget", "vdup", "vmov")) or last.endswith("_unsafe") or last in ("pack_sincs", "transmute", "from_raw_parts"):
+                return True
+    return False
+
+
+def sink_unsafe(doc, log):
+    n_sunk = [0]
+
+    def sink(stmts_parent, i):
+        """stmts_parent[i] is a statement `unsafe { .. }`; returns the replacement statement list"""
+        s = stmts_parent[i]
+        blk = s["e"]["body"]
+        if not (isinstance(blk, dict) and blk.get("k") == "block"):
+            return [s]
+        inner = blk["stmts"]
+        if not inner or inner[-1].get("k") == "expr" and s.get("k") == "expr":
+            return [s]                      # the block's value is used
+        hot = [j for j, st in enumerate(inner) if _has_unsafe_op(st)]
+        if len(hot) != 1:
+            return [s]
+        j = hot[0]
+        st = inner[j]
+        e = st.get("e") if st.get("k") in ("semi", "expr") else None
+        if e is None or e.get("k") not in ("for", "while", "if"):
+            return [s]
+        # names declared by the statements that move out must not be mentioned after the unsafe block in the parent
+        moved = [x_ for k_, x_ in enumerate(inner) if k_ != j]
+        names = {x.get("name") for m_ in moved for x in walk(m_) if x.get("k") == "pident"}
+        later = {x.get("p") for t_ in stmts_parent[i + 1:] for x in walk(t_) if x.get("k") == "path"}
+        if names & later:
+            return [s]
+
+        def wrap(b):
+            return {"k": "block", "stmts": [{"k": "semi" if True else "expr", "e": {"k": "unsafe", "body": b, "ln": s.get("ln", 0)}, "ln": s.get("ln", 0)}], "ln": b.get("ln", 0)}
+        e2 = dict(e)
+        if e["k"] in ("for", "while"):
+            if _has_unsafe_op(e.get("iter") or e.get("c") or {}):
+                return [s]
+            e2["body"] = wrap(e["body"])
+        else:
+            if _has_unsafe_op(e["c"]) or (e.get("else") is not None and _has_unsafe_op(e["else"])):
+                return [s]
+            e2["then"] = wrap(e["then"])
+        n_sunk[0] += 1
+        new_st = dict(st, e=e2)
+        return inner[:j] + [new_st] + inner[j + 1:]
+
+    def visit(n):
+        if isinstance(n, list):
+            for x in n:
+                visit(x)
+            return
+        if not isinstance(n, dict):
+            return
+        if n.get("k") == "block":
+            changed = True
+            rounds = 0
+            while changed and rounds < 8:
+                changed = False
+                rounds += 1
+                for i, s in enumerate(n["stmts"]):
+                    if s.get("k") in ("semi", "expr") and isinstance(s.get("e"), dict) and s["e"].get("k") == "unsafe" and any("__h" in str(x.get("name", "")) for x in walk(s) if x.get("k") == "pident"):
+                        rep_ = sink(n["stmts"], i)
+                        if not (len(rep_) == 1 and rep_[0] is s):
+                            n["stmts"] = n["stmts"][:i] + rep_ + n["stmts"][i + 1:]
+                            changed = True
+                            break
+        for v in list(n.values()):
+            if isinstance(v, (dict, list)):
+                visit(v)
+    for path, owner, is_trait, fn in all_fns(doc):
+        if fn.get("body") is not None:
+            visit(fn["body"])
+    if n_sunk[0]:
+        log.append("unsafe blocks produced by inlining sunk to the innermost block holding their unchecked operations: %d steps" % n_sunk[0])
+
+
 def normalise(doc):
     log = []
     canonical_fields(doc, log)
@@ -835,6 +922,7 @@ def normalise(doc):
     try_helpers(doc, log)
     inline_helpers(doc, log)
     inline_expr_helpers(doc, log)
+    sink_unsafe(doc, log)
     setter_guards(doc, log)
     doc["normalisation_log"] = log
     return doc
